@@ -1,6 +1,9 @@
 #!/bin/sh
-# offline build of the harness (and, for the thorough tier, the fuzz targets are built on demand)
+# offline build of the harness and (best effort) of the libFuzzer targets used by the thorough tier
 cd "$(dirname "$0")" || exit 2
 export CARGO_NET_OFFLINE=true
 mkdir -p evidence replays
-cd harness && cargo build --release --offline
+(cd harness && cargo build --release --offline) || exit 1
+# thorough tier only; a failure here is not fatal (the fuzz stage then reports itself unavailable)
+(cd harness && cargo +nightly fuzz build --fuzz-dir "$(pwd)/../fuzz" >/dev/null 2>&1) || echo "note: fuzz targets not built (thorough tier will skip the libFuzzer stage)"
+exit 0
